@@ -127,6 +127,15 @@ Definition chord_filter (f : nfilter) (data : list Z) : option bool :=
                (existsb (fun row => any2 Z.eqb (bcast_row (length data) row) data) (f_ar f)))
   else None.
 
+(* NOT the code: the smallest repair of the defect above, (self.ar == data).all(axis=1).any(), i.e. row
+   membership.  Used only (a) to state what the repaired code satisfies and (b) by the runner, which accepts
+   an implementation that agrees with either variant, so that the check stays green once the defect is repaired. *)
+Definition chord_filter_rows (f : nfilter) (data : list Z) : option bool :=
+  if bcast_ok (f_w f) (length data)
+  then Some (xorb (f_inv f)
+               (existsb (fun row => list_eqb Z.eqb (bcast_row (length data) row) data) (f_ar f)))
+  else None.
+
 (* sum(row * keys ** arange(n-1, -1, -1)) *)
 Fixpoint row_hash (keys : Z) (row : list Z) : Z :=
   match row with
